@@ -466,15 +466,17 @@ func auxScan(r *rand.Rand, n int, emit func(E), stats map[string]int) {
 					errS = "stop request swallowed"
 				}
 			})
+			panicked := 0
 			if !ok {
 				errS = "panic: " + msg
+				panicked = 1
 			}
 			phase := "same-tx"
 			if committed {
 				phase = "committed"
 			}
 			emit(E{"kind": "scan", "be": be, "phase": phase, "entries": entries, "range": rg, "reverse": reverse, "stop": stop,
-				"obs": obs, "calls": calls, "err": errS})
+				"obs": obs, "calls": calls, "err": errS, "panicked": panicked})
 			stats["scan/"+be+"/"+phase]++
 		}
 		tx.Rollback()
@@ -561,7 +563,7 @@ func auxCursor(r *rand.Rand, n int, emit func(E), stats map[string]int) {
 	val := func() []byte {
 		switch r.Intn(3) {
 		case 0:
-			return []byte{}
+			return nil // what clover writes for index entries
 		case 1:
 			return []byte("v")
 		}
@@ -629,8 +631,10 @@ func auxCursor(r *rand.Rand, n int, emit func(E), stats map[string]int) {
 					cur.Next()
 				}
 			})
+			panicked := 0
 			if !ok {
 				errS = "panic: " + msg
+				panicked = 1
 			}
 			gets := make([]interface{}, 0)
 			for _, k := range keyU {
@@ -674,7 +678,7 @@ func auxCursor(r *rand.Rand, n int, emit func(E), stats map[string]int) {
 				phase = "writing-tx"
 			}
 			emit(E{"kind": "cursor", "be": be, "phase": phase, "kv": enc(committed), "pending": pending, "forward": forward,
-				"target": B(string(target)), "obs": obs, "gets": fg, "err": errS})
+				"target": B(string(target)), "obs": obs, "gets": fg, "err": errS, "panicked": panicked})
 			stats["cursor/"+be+"/"+phase]++
 		}
 		b.Destroy()
